@@ -69,6 +69,8 @@ inductive HOp
   | create                           -- create a new object
   | link (a b : Nat)                 -- a.coll.add(b)       (many-to-many; also `X(coll=[b])` after the creation of X)
   | unlink (a b : Nat)               -- a.coll.remove(b)
+  | linkNewOwner (b : Nat)           -- the object created last owns the link: `X(coll=[b])` (creation and link are two operations)
+  | linkNewItem (a : Nat)            -- a.coll.add(the object created last)
   deriving DecidableEq, Repr, Inhabited
 
 inductive Err
@@ -131,6 +133,8 @@ def applyOp (s : State) : HOp → Except Err State
       | .markedToDelete | .deleted => .error (.hookRaised o)                              -- throw_object_was_deleted
   | .link a b => applyLink s a b true
   | .unlink a b => applyLink s a b false
+  | .linkNewOwner b => applyLink s (s.objs.length - 1) b true
+  | .linkNewItem a => applyLink s a (s.objs.length - 1) true
 
 def runOps : List HOp → State → Except Err State
   | [], s => .ok s
